@@ -42,6 +42,8 @@ class FakeAdbDevice:
     self.framing_errors = []
     self.readers_waiting = 0
     self.read_calls = 0
+    self.fail_write = None     # (command, 'header' | 'payload'): one-shot write fault
+    self.write_faults_fired = 0
 
   # ---------------------------------------------------------- device side
   def feed(self, cmd, arg0, arg1, data='', tag=None):
@@ -70,6 +72,11 @@ class FakeAdbDevice:
           self.framing_errors.append(('bad header chunk', repr(data)[:60]))
           return
         f = struct.unpack('<6I', data)
+        if self.fail_write and self.fail_write == (WIRE_TO_CMD.get(f[0]), 'header'):
+          # nothing reaches the device
+          self.fail_write = None
+          self.write_faults_fired += 1
+          self._write_fault()
         self._pending_header = f
         return
       f = self._pending_header
@@ -85,6 +92,11 @@ class FakeAdbDevice:
              WIRE_TO_CMD.get(f[0], '?'), f[1], f[2], data)
       self.host_msgs.append(msg)
       cb = self.on_host_message
+      if self.fail_write and self.fail_write == (msg[2], 'payload'):
+        # the device has the complete message, the host sees a failed transfer
+        self.fail_write = None
+        self.write_faults_fired += 1
+        self._write_fault()
     if cb:
       cb(msg)
 
@@ -112,6 +124,11 @@ class FakeAdbDevice:
     import libusb1
     raise self.exc.UsbReadFailedError(
         libusb1.USBError(libusb1.LIBUSB_ERROR_TIMEOUT), 'fake device silent')
+
+  def _write_fault(self):
+    import libusb1
+    raise self.exc.UsbWriteFailedError(
+        libusb1.USBError(libusb1.LIBUSB_ERROR_TIMEOUT), 'fake write fault')
 
   def close(self):
     with self.cv:
